@@ -65,6 +65,9 @@ type Scenario struct {
 	// Reuse: one igc.Encoder value writes the whole track and then every
 	// prefix track, each into its own output (clean mode).
 	Reuse bool `json:"reuse,omitempty"`
+	// Pipe: at the end of a clean run one real bytes.Buffer carries two logs in
+	// turn (written, read back, written, read back).
+	Pipe bool `json:"pipe,omitempty"`
 	// Prelude (clean mode): a hand-composed record stream (I records that
 	// extend the B record, odd headers, garbage) decoded before the track is,
 	// in the same process: a decode starts from nothing whatever came before.
@@ -123,7 +126,7 @@ func (prop) Describe() core.Description {
 		RealComponents: []string{"encoding/igc (Encoder.Encode, Read and its parser)", "go-geom LineString", "stdlib bufio.Scanner, fmt, regexp, time"},
 		StubComponents: []string{"io.Writer under the encoder (simio.Writer)", "the medium between writer and reader (line and byte edits)", "io.Reader under the decoder (simio.Reader: chunking, stalls incl. unbounded, data+EOF, error at offset, truncation)"},
 		FaultKinds:     []string{"read-split", "read-stall", "read-data+eof", "read-error", "read-truncate", "stall-forever", "line-drop", "line-dup", "line-swap", "line-tear", "line-long", "line-garble", "byte-edit", "write-fail"},
-		Probes:         []string{"probe:year<2000", "probe:year-rollover", "probe:day-rollover", "probe:lat==+-90", "probe:lon==+-180", "probe:alt-clamped", "probe:fractional-second", "probe:I-record", "probe:I-record-extends-B", "probe:B-shorter-than-announced", "probe:line>64KiB", "probe:torn-inside-B", "probe:noise-before-A", "probe:record-errors-returned", "probe:record-errors>16", "probe:prefix-tracks", "probe:encoder-reused", "probe:local-zone-not-utc", "probe:extra-ordinates-nonzero", "probe:first-result-rechecked-after-later-decodes", "probe:headers-checked", "probe:decode-after-an-unrelated-stream", "probe:consecutive-fixes-with-identical-records"},
+		Probes:         []string{"probe:year<2000", "probe:year-rollover", "probe:day-rollover", "probe:lat==+-90", "probe:lon==+-180", "probe:alt-clamped", "probe:fractional-second", "probe:I-record", "probe:I-record-extends-B", "probe:B-shorter-than-announced", "probe:line>64KiB", "probe:torn-inside-B", "probe:noise-before-A", "probe:record-errors-returned", "probe:record-errors>16", "probe:prefix-tracks", "probe:encoder-reused", "probe:one-buffer-carries-two-logs", "probe:local-zone-not-utc", "probe:extra-ordinates-nonzero", "probe:first-result-rechecked-after-later-decodes", "probe:headers-checked", "probe:decode-after-an-unrelated-stream", "probe:consecutive-fixes-with-identical-records"},
 	}
 }
 
@@ -157,7 +160,7 @@ func (prop) Decode(raw []byte) (any, error) {
 	if s.TZ < -14*3600 || s.TZ > 14*3600 {
 		return nil, fmt.Errorf("bad time zone")
 	}
-	if (s.Reuse || len(s.Prelude) > 0 || s.CleanWriteFail != 0) && s.Mode != "clean" {
+	if (s.Reuse || s.Pipe || len(s.Prelude) > 0 || s.CleanWriteFail != 0) && s.Mode != "clean" {
 		return nil, fmt.Errorf("clean-mode settings outside clean mode")
 	}
 	if s.CleanWriteFail < 0 {
@@ -485,6 +488,7 @@ func (prop) Generate(r *prng.Rand, phase string) any {
 	}
 	if phase == "clean" {
 		s.Reuse = r.Chance(0.4)
+		s.Pipe = r.Chance(0.15)
 		if r.Chance(0.3) {
 			s.Prelude = genLines(r)
 		}
@@ -903,6 +907,36 @@ func (prop) Execute(scAny any, phase string, log *core.Log) core.Result {
 					return res
 				}
 			}
+		}
+		if s.Pipe && len(s.Fixes) > 0 {
+			// one in-memory pipe (a real bytes.Buffer) carries two logs in turn:
+			// written, read back, written again, read back again. Reading a
+			// stream consumes it.
+			var buf bytes.Buffer
+			for round, fx := range [][]Fix{s.Fixes, s.Fixes[:(len(s.Fixes)+1)/2]} {
+				var t *igc.T
+				var eerr, rerr error
+				if p := core.Guard(func() {
+					eerr = igc.NewEncoder(&buf, igc.A(s.A)).Encode(buildTrack(s.Layout, fx, float64(s.Extra)))
+					stream := append([]byte(nil), buf.Bytes()...)
+					t, rerr = igc.Read(&buf)
+					_ = stream
+				}); p != "" {
+					res.Fail("panic", "panic:read:"+core.PanicSite(p), "round %d through one bytes.Buffer panicked: %s", round, p)
+					return res
+				}
+				if eerr != nil || rerr != nil || t == nil || t.LineString == nil {
+					res.Fail("clean-pipe-errors", "clean-pipe-record-errors:one-buffer", "round %d through one bytes.Buffer: Encode error %v, Read error %v", round, eerr, rerr)
+					return res
+				}
+				if !verifyTrack(&res, fx, t.LineString, fmt.Sprintf("log %d written into and read back from one bytes.Buffer", round+1), nil) {
+					if res.Violation != nil {
+						res.Violation.Sig = "one-buffer:" + res.Violation.Sig
+					}
+					return res
+				}
+			}
+			res.Count("probe:one-buffer-carries-two-logs", 1)
 		}
 		res.Nontrivial = len(s.Fixes) >= 1 && fired
 		res.StateKey = fmt.Sprintf("clean|%d|%d|%d|%v|%v|%v", bucket(len(s.Fixes)), crossings, s.Layout, fired, s.Reuse, s.TZ != 0)
